@@ -610,6 +610,30 @@ def sliceFree (j : JSt) (lineNo a v b : Nat) (rj : List (Nat × Nat × Label)) (
         j.reject "C13" lineNo s!"slice holds {showNats o.keys}, reachable along accepted edges (source as last observed) are {showNats kept}"
       else j
 
+/-- C18 / C20 (Debug, Display) without a reference state, for a handle the history monitors no longer judge: the parsed records
+    against the last full observation of the handle (nothing was called on it since) — the same vertices in ascending order, per
+    vertex the same edge entries, data shown exactly for the vertices that hold data (the bytes are not in an observation) -/
+def judgeTextFree (ents : List OEntry) (cmd : String) (obs : String) : List (String × String) :=
+  let prop := if cmd = "xml" ∨ cmd = "dot" then "C18" else "C20"
+  match words obs with
+  | ["ok", t] =>
+    let text := unesc t
+    let parsed : Option (List PNode) :=
+      if cmd = "xml" then parseXml text else if cmd = "dot" then parseDot text else (parseDebug text).map (·.1)
+    match parsed with
+    | none => [(prop, s!"{cmd} text cannot be read back")]
+    | some got =>
+      let want : List PNode := ents.map (fun e =>
+        { id := e.id,
+          edges := e.edges.map (fun x => ((match parseLabelTok x.1 with | some l => String.ofList (Lb.print l) | none => x.1), x.2)),
+          data := if e.marker then some "?" else none })
+      if got.map (·.id) ≠ want.map (·.id) then
+        [(prop, s!"{cmd}: vertices {showNats (got.map (·.id))}, present (as last observed) are {showNats (want.map (·.id))}")]
+      else match (got.zip want).find? (fun p => edgeKeys p.1.edges ≠ edgeKeys p.2.edges ∨ p.1.data.isSome ≠ p.2.data.isSome) with
+        | some (g, w) => [(prop, s!"{cmd}: vertex {g.id} shows {showPNodes [g]}, has (as last observed) {showPNodes [w]}")]
+        | none => []
+  | _ => [(prop, s!"{cmd} answered '{obs.take 40}'")]
+
 def judgeLine2 (j : JSt) (lineNo : Nat) (opLine obsLine : String) : JSt :=
   let j := { j with stats := { j.stats with calls := j.stats.calls + 1 } }
   match words opLine with
@@ -961,7 +985,10 @@ def judgeLine1 (j : JSt) (lineNo : Nat) (opLine obsLine : String) : JSt :=
           let (tm, rej) := judgeText j.tm m cmd none obsLine
           let j := { j with tm := tm }
           rej.foldl (fun j (p, msg) => j.reject p lineNo (opLine.trimAscii.toString ++ ": " ++ msg)) j
-        else j
+        else match (parseHandle a).bind (fun h => j.freshObs.find? (·.1 = h)) with
+          | some (_, ents) =>
+            (judgeTextFree ents cmd obsLine).foldl (fun j (p, msg) => j.reject p lineNo (opLine.trimAscii.toString ++ ": " ++ msg)) j
+          | none => j
       | none => j
     else judgeLine2 j lineNo opLine obsLine
   | [cmd, a, v] =>
@@ -989,8 +1016,26 @@ def mutatedHandle (ws : List String) : Option Nat :=
   | cmd :: h :: _ => if cmd ∈ ["add", "bind", "put", "data", "nextid"] then parseHandle h else none
   | _ => none
 
+/-- C05 without a reference state: an id `next_id()` returns on a handle the history monitors no longer judge must not be one
+    the last full observation of that handle (nothing called on it since) shows as present -/
+def nextIdFree (j : JSt) (lineNo : Nat) (ws : List String) (obsLine : String) : JSt :=
+  match ws with
+  | ["nextid", h] =>
+    match parseHandle h with
+    | some a =>
+      match j.getMon a, j.freshObs.find? (·.1 = a), words obsLine with
+      | some m, some (_, ents), "ok" :: i :: _ =>
+        if m.judged then j
+        else match i.toNat? with
+          | some id => if ents.any (·.id = id) then j.reject "C05" lineNo s!"nextid {h}: id {id} is present (as last observed)" else j
+          | none => j
+      | _, _, _ => j
+    | none => j
+  | _ => j
+
 def judgeLine (j : JSt) (lineNo : Nat) (opLine obsLine : String) : JSt :=
   let ws := words opLine
+  let j := nextIdFree j lineNo ws obsLine
   let j := match mutatedHandle ws with
     | some h => { j with freshObs := j.freshObs.filter (·.1 ≠ h) }
     | none => j
